@@ -327,7 +327,7 @@ func TestLifecycle(t *testing.T) {
 func TestLifecycleSparse(t *testing.T) {
 	kit.Rec.Rule(rule)
 	rapid.Check(t, func(t *rapid.T) {
-		s := graph.Gen(t, graph.GenOpts{MinNodes: 3, MaxNodes: 6, Variants: "Q", Aliases: true})
+		s := graph.Gen(t, graph.GenOpts{MinNodes: 3, MaxNodes: 6, Variants: "QQQJJMMD", Aliases: true})
 		// thin the masks out
 		for i := range s.Nodes {
 			s.Nodes[i].Mask &= rapid.IntRange(0, 63).Draw(t, "thin")
